@@ -183,6 +183,78 @@ func c03gNoAllow(c *eng.Ctx, f *ssa.Function, site string, start []eng.Edge, aft
 }
 
 // ---------------------------------------------------------------------------
+// C03.8 (shared with C02 as C02.10: a request reaches a handler only if the
+// policies allow that operation with those parameters): for each of
+// read/update/create/patch the required / denied / allowed parameter checks lie
+// on every allowing path, and their refusing edges never allow.
+func c03gParameterChecks(c *eng.Ctx, clause string) {
+	f := c.Fn("policy.(*ACL).AllowOperation")
+	if f == nil {
+		return
+	}
+	var allow []ssa.Instruction
+	for _, st := range eng.Stores(f, `\.Allowed$`) {
+		if eng.Expr(st.Val) == "true" {
+			allow = append(allow, st)
+		}
+	}
+	if !c.Floor(f, "Allowed = true stores (parameter checks)", len(allow), 5) {
+		return
+	}
+	perm := `φpermissions\{.*\}`
+
+	isLookupOn := func(field string) func(ssa.Instruction) bool {
+		return func(in ssa.Instruction) bool {
+			lk, ok := in.(*ssa.Lookup)
+			return ok && strings.HasSuffix(eng.Expr(lk.X), "."+field)
+		}
+	}
+	dataLoop := `^next\(range\(req\.Data\)\)#0$`
+	deniedExit := c03gRangeExit(f, dataLoop, isLookupOn("DeniedParameters"))
+	allowedExit := c03gRangeExit(f, dataLoop, isLookupOn("AllowedParameters"))
+	c.Floor(f, "loop over the request's parameters against denied_parameters", len(deniedExit), 1)
+	c.Floor(f, "loop over the request's parameters against allowed_parameters", len(allowedExit), 1)
+	c.Clause("R2", clause)
+	nonEmpty := map[string]bool{`^len\(req\.Data\) == 0$`: false}
+	withAllowed := map[string]bool{`^len\(req\.Data\) == 0$`: false, `^len\(` + perm + `\.AllowedParameters\) == 0$`: false}
+	for _, op := range []string{"read", "update", "create", "patch"} {
+		c03gCutLive(c, f, "ret.Allowed = true ("+op+")", allow,
+			eng.G(f, `rangeindex.*< len\(`+perm+`\.RequiredParameters\)$`, false), c03gOpAssume(op, nil))
+		c03gCutLive(c, f, "ret.Allowed = true ("+op+", request carries parameters)", allow,
+			eng.Or(eng.G(f, `^len\(`+perm+`\.DeniedParameters\) == 0$`, true),
+				eng.Guard{Desc: "exit of the loop testing every request parameter against denied_parameters", Edges: deniedExit}),
+			c03gOpAssume(op, nonEmpty))
+		c03gCutLive(c, f, "ret.Allowed = true ("+op+", request carries parameters, rule has allowed_parameters)", allow,
+			eng.Or(eng.G(f, `^len\(`+perm+`\.AllowedParameters\) == 1$`, true),
+				eng.Guard{Desc: "exit of the loop testing every request parameter against allowed_parameters", Edges: allowedExit}),
+			c03gOpAssume(op, withAllowed))
+	}
+	c.Clause("R4", clause)
+	c03gNoAllow(c, f, "deny{required parameter missing}", eng.CondEdges(f, `^req\.Data\[strings\.ToLower\(\)\]#1$`, false), nil, nil, nil, allow,
+		"a required parameter is absent from the request")
+	c03gNoAllow(c, f, "deny{all parameters denied}", eng.CondEdges(f, `^`+perm+`\.DeniedParameters\["\*"\]#1$`, true), nil, nil, nil, allow,
+		`denied_parameters contains "*"`)
+	deniedKey := `^` + perm + `\.DeniedParameters\[strings\.ToLower\(\)\]#1$`
+	allowedKey := `^` + perm + `\.AllowedParameters\[strings\.ToLower\(\)\]#1$`
+	// the membership test is whichever call is handed the looked-up entry (valueInParameterList today,
+	// possibly inlined into an emptiness test plus valueInSlice): selected by its operand, not by its name
+	c03gNoAllow(c, f, "deny{denied parameter value}", eng.CondEdges(f, deniedKey, true), nil,
+		c03gEntryCallEdges(f, "DeniedParameters", false), map[string]bool{deniedKey: true}, allow,
+		"the parameter has a denied_parameters entry and the membership test on that entry did not answer false")
+	for _, lk := range c03gMapLookups(f, "AllowedParameters", false) {
+		c03gNoAllow(c, f, "deny{value outside the allowed list}", nil, lk,
+			append(c03gEntryCallEdges(f, "AllowedParameters", true),
+				eng.CondEdges(f, `^len\(`+perm+`\.AllowedParameters\[strings\.ToLower\(\)\]#0\) == 0$`, true)...),
+			map[string]bool{allowedKey: true}, allow,
+			"the parameter has an allowed_parameters entry that is not empty and the membership test on that entry did not answer true")
+		c03gNoAllow(c, f, "deny{parameter not in allowed_parameters}", nil, lk,
+			eng.CondEdges(f, `^`+perm+`\.AllowedParameters\["\*"\]#1$`, true), map[string]bool{allowedKey: false}, allow,
+			`the parameter has no allowed_parameters entry and "*" is not allowed`)
+	}
+	c.Floor(f, "per-parameter lookups in allowed_parameters", len(c03gMapLookups(f, "AllowedParameters", false)), 1)
+}
+
+// ---------------------------------------------------------------------------
 // C03.7 .. C03.9, C03.12: AllowOperation beyond the capability test
 
 func c03gAllowOperation(c *eng.Ctx) {
@@ -222,56 +294,7 @@ func c03gAllowOperation(c *eng.Ctx) {
 			eng.Or(eng.G(f, `^req\.Operation == "list"$`, true), eng.G(f, `^req\.Operation == "scan"$`, true)), nil)
 	}
 
-	// ---- C03.8 parameter constraints
-	isLookupOn := func(field string) func(ssa.Instruction) bool {
-		return func(in ssa.Instruction) bool {
-			lk, ok := in.(*ssa.Lookup)
-			return ok && strings.HasSuffix(eng.Expr(lk.X), "."+field)
-		}
-	}
-	dataLoop := `^next\(range\(req\.Data\)\)#0$`
-	deniedExit := c03gRangeExit(f, dataLoop, isLookupOn("DeniedParameters"))
-	allowedExit := c03gRangeExit(f, dataLoop, isLookupOn("AllowedParameters"))
-	c.Floor(f, "loop over the request's parameters against denied_parameters", len(deniedExit), 1)
-	c.Floor(f, "loop over the request's parameters against allowed_parameters", len(allowedExit), 1)
-	c.Clause("R2", "C03.8")
-	nonEmpty := map[string]bool{`^len\(req\.Data\) == 0$`: false}
-	withAllowed := map[string]bool{`^len\(req\.Data\) == 0$`: false, `^len\(` + perm + `\.AllowedParameters\) == 0$`: false}
-	for _, op := range []string{"read", "update", "create", "patch"} {
-		c03gCutLive(c, f, "ret.Allowed = true ("+op+")", allow,
-			eng.G(f, `rangeindex.*< len\(`+perm+`\.RequiredParameters\)$`, false), c03gOpAssume(op, nil))
-		c03gCutLive(c, f, "ret.Allowed = true ("+op+", request carries parameters)", allow,
-			eng.Or(eng.G(f, `^len\(`+perm+`\.DeniedParameters\) == 0$`, true),
-				eng.Guard{Desc: "exit of the loop testing every request parameter against denied_parameters", Edges: deniedExit}),
-			c03gOpAssume(op, nonEmpty))
-		c03gCutLive(c, f, "ret.Allowed = true ("+op+", request carries parameters, rule has allowed_parameters)", allow,
-			eng.Or(eng.G(f, `^len\(`+perm+`\.AllowedParameters\) == 1$`, true),
-				eng.Guard{Desc: "exit of the loop testing every request parameter against allowed_parameters", Edges: allowedExit}),
-			c03gOpAssume(op, withAllowed))
-	}
-	c.Clause("R4", "C03.8")
-	c03gNoAllow(c, f, "deny{required parameter missing}", eng.CondEdges(f, `^req\.Data\[strings\.ToLower\(\)\]#1$`, false), nil, nil, nil, allow,
-		"a required parameter is absent from the request")
-	c03gNoAllow(c, f, "deny{all parameters denied}", eng.CondEdges(f, `^`+perm+`\.DeniedParameters\["\*"\]#1$`, true), nil, nil, nil, allow,
-		`denied_parameters contains "*"`)
-	deniedKey := `^` + perm + `\.DeniedParameters\[strings\.ToLower\(\)\]#1$`
-	allowedKey := `^` + perm + `\.AllowedParameters\[strings\.ToLower\(\)\]#1$`
-	// the membership test is whichever call is handed the looked-up entry (valueInParameterList today,
-	// possibly inlined into an emptiness test plus valueInSlice): selected by its operand, not by its name
-	c03gNoAllow(c, f, "deny{denied parameter value}", eng.CondEdges(f, deniedKey, true), nil,
-		c03gEntryCallEdges(f, "DeniedParameters", false), map[string]bool{deniedKey: true}, allow,
-		"the parameter has a denied_parameters entry and the membership test on that entry did not answer false")
-	for _, lk := range c03gMapLookups(f, "AllowedParameters", false) {
-		c03gNoAllow(c, f, "deny{value outside the allowed list}", nil, lk,
-			append(c03gEntryCallEdges(f, "AllowedParameters", true),
-				eng.CondEdges(f, `^len\(`+perm+`\.AllowedParameters\[strings\.ToLower\(\)\]#0\) == 0$`, true)...),
-			map[string]bool{allowedKey: true}, allow,
-			"the parameter has an allowed_parameters entry that is not empty and the membership test on that entry did not answer true")
-		c03gNoAllow(c, f, "deny{parameter not in allowed_parameters}", nil, lk,
-			eng.CondEdges(f, `^`+perm+`\.AllowedParameters\["\*"\]#1$`, true), map[string]bool{allowedKey: false}, allow,
-			`the parameter has no allowed_parameters entry and "*" is not allowed`)
-	}
-	c.Floor(f, "per-parameter lookups in allowed_parameters", len(c03gMapLookups(f, "AllowedParameters", false)), 1)
+	c03gParameterChecks(c, "C03.8")
 
 	// ---- C03.9 pagination limit restricts list and scan alike
 	c.Clause("R2", "C03.9")
